@@ -1,10 +1,13 @@
 package props
 
 import (
+	"fmt"
 	"os"
+	"path/filepath"
 	"sort"
 	"strings"
 	"testing"
+	"time"
 
 	"pgregory.net/rapid"
 	"verif/hx"
@@ -46,5 +49,38 @@ func TestDevRejects(t *testing.T) {
 	}
 	for _, k := range ks {
 		t.Logf("==== %s\n%s", k, ex[k])
+	}
+}
+
+// TestDevC12Timing is a development aid: wall time of single runs in the C12 setting.
+func TestDevC12Timing(t *testing.T) {
+	if os.Getenv("VERIF_DEV") == "" {
+		t.Skip("dev only")
+	}
+	env := hx.LoadEnv("DEV")
+	os.MkdirAll(env.Work, 0o755)
+	env.InitScratchCache()
+	setup := c12Variant{TA: "int", TB: "int", Methods: c12MethodPool[:1]}.render()
+	for _, link := range []bool{false, true, false, true} {
+		for _, k := range []int{0, 50, 77, 120, 300} {
+			root := env.Scratch("hist")
+			base := (&pg.Prog{}).Files().Set("home/sib.go", c12Sibling).Set("ext/setup.gen.go", c12DepNamedLikeOutput).Set(pg.SetupPath, setup)
+			hx.WriteTree(root, base)
+			if link {
+				os.Symlink(root, root+"-link")
+			}
+			var durs []string
+			for i := 0; i < 3; i++ {
+				t0 := time.Now()
+				o, _ := c12RunOnce(env, root)
+				durs = append(durs, fmt.Sprintf("%dms(exit %d)", time.Since(t0).Milliseconds(), o.Exit))
+				if i == 0 && o.Out != nil && k < len(*o.Out) {
+					os.WriteFile(filepath.Join(root, filepath.FromSlash(pg.OutPath)), []byte((*o.Out)[:k]), 0o644)
+				}
+			}
+			t.Logf("link=%v k=%d: %v", link, k, durs)
+			os.RemoveAll(root)
+			os.Remove(root + "-link")
+		}
 	}
 }
